@@ -91,6 +91,15 @@ def main (lines : Array String) : IO Unit := do
       let t := nat! t
       let s1 := runSilent s0 t
       let pc := ((getT s1 t).map (·.pc)).getD .idle
+      -- C11 along the implementation's own schedule: an emptyQueue() about to return true must find every
+      -- event spliced in before the call began consumed
+      match pc with
+      | .emptyRead2 seen =>
+        if s1.ec == 0 then
+          let cons := s1.consumed.map (·.1)
+          let missing := (List.range seen).filter (fun e => !cons.contains e)
+          if !missing.isEmpty then mism := s!"c11bad thread {t}: emptyQueue returns true while events {missing} (enqueued before the call) are not consumed" :: mism
+      | _ => pure ()
       let want := tagOf locked pc
       let tagOk := want == tag || (want == "wake" && (tag == "spurious" || tag == "timeout"))
       if !tagOk then mism := s!"thread {t}: implementation performed '{tag}', model expects '{want}'" :: mism
